@@ -1018,7 +1018,7 @@ read_result<std::vector<parsed_line>> read_lines(jsoncons::span<char> raw,
 
     std::vector<parsed_line> lines;
 
-    std::size_t indent_size = options.indent();
+    std::size_t indent_size = options.indent() == 0 ? 1 : options.indent(); // an indent of 0 cannot divide anything
     bool strict = options.strict();
 
     std::size_t line_num = 1;
